@@ -9,6 +9,9 @@ import (
 	"encoding/json"
 	"flag"
 	"fmt"
+	"github.com/cronokirby/saferith"
+	"github.com/taurusgroup/multi-party-sig/pkg/pedersen"
+	"github.com/taurusgroup/multi-party-sig/protocols/cmp"
 	"os"
 	"strings"
 
@@ -99,7 +102,68 @@ func protocolTable() map[string][]byte {
 	return out
 }
 
+// auxSensitivity: the key material is part of a CMP session's parameters (Session.tla: AuxFields).  Two configurations
+// that differ in exactly ONE of the listed fields of one peer's public entry (or in the RID) must give different tags,
+// for every start function that takes a configuration.  The alternative values are valid ones, taken from an
+// independently dealt key.
+func auxSensitivity(fields []string) (fails []failure, evals int) {
+	ids := []party.ID{"a", "b"}
+	sid := []byte("aux")
+	base := protos.DealCmp(ids, 1, "aux-base")
+	donor := protos.DealCmp(ids, 1, "aux-donor")
+	starts := map[string]func(c map[party.ID]interface{}) *protos.Session{
+		"cmp.Refresh": func(c map[party.ID]interface{}) *protos.Session { return protos.CmpRefresh(c, sid) },
+		"cmp.Sign":    func(c map[party.ID]interface{}) *protos.Session { return protos.CmpSign(c, ids, []byte("m"), sid) },
+		"cmp.Presign": func(c map[party.ID]interface{}) *protos.Session { return protos.CmpPresign(c, ids, sid) },
+	}
+	tagOf := func(name string, c map[party.ID]interface{}) []byte {
+		return firstSSID(starts[name](c).Makers["a"], "a")
+	}
+	for name := range starts {
+		ref := tagOf(name, protos.CloneConfigs(base))
+		if ref == nil {
+			fails = append(fails, failure{name, "start-fails", "the unmodified configuration does not start"})
+			continue
+		}
+		for _, f := range fields {
+			c := protos.CloneConfigs(base)
+			ca := c["a"].(*cmp.Config)
+			d := donor["a"].(*cmp.Config)
+			switch f {
+			case "rid":
+				ca.RID = d.RID
+			case "ecdsa":
+				ca.Public["b"].ECDSA = d.Public["b"].ECDSA
+			case "elgamal":
+				ca.Public["b"].ElGamal = d.Public["b"].ElGamal
+			case "paillier":
+				// the Pedersen parameters live in the same modulus: both move together
+				ca.Public["b"].Paillier = d.Public["b"].Paillier
+				ca.Public["b"].Pedersen = d.Public["b"].Pedersen
+			case "pedersen":
+				pp := ca.Public["b"].Pedersen
+				s2 := new(saferith.Nat).ModMul(pp.S(), pp.S(), pp.N())
+				t2 := new(saferith.Nat).ModMul(pp.T(), pp.T(), pp.N())
+				ca.Public["b"].Pedersen = pedersen.New(pp.NArith(), s2, t2)
+			default:
+				continue // threshold and participants are coordinates of the tag tuples above
+			}
+			evals++
+			got := tagOf(name, c)
+			if got == nil {
+				continue // the start function refuses the altered configuration: no session, no tag
+			}
+			if hex.EncodeToString(got) == hex.EncodeToString(ref) {
+				fails = append(fails, failure{name + " / " + f, "aux-field-not-in-tag",
+					fmt.Sprintf("%s: two configurations that differ only in the field %q of a peer's public key material start sessions with the same tag", name, f)})
+			}
+		}
+	}
+	return
+}
+
 func main() {
+	auxf := flag.String("auxfields", "", "comma-separated key material fields of Session.tla (AuxFields)")
 	in := flag.String("tags", "", "TAG lines (JSON)")
 	out := flag.String("out", "", "summary")
 	flag.Parse()
@@ -231,6 +295,12 @@ func main() {
 		}
 	} else {
 		fails = append(fails, failure{"ctx", "start-fails", err.Error()})
+	}
+	if *auxf != "" {
+		af, n := auxSensitivity(strings.Split(*auxf, ","))
+		fails = append(fails, af...)
+		evals += n
+		realized += n
 	}
 	res := map[string]interface{}{"evaluations": evals, "realized": realized, "failures": fails, "samples": samples, "protocols": len(table)}
 	b, _ := json.MarshalIndent(res, "", " ")
